@@ -94,7 +94,7 @@ def tree_hash():
     return h.hexdigest()[:20]
 
 
-def run_tasks(items, timeout_ms, jobs=12, task_wall_s=900):
+def run_tasks(items, timeout_ms, jobs=10, task_wall_s=900):
     """one process per task (a crashing or hanging task cannot take the others down).  Task results are
     cached by content hash of (repository sources, engine, contracts, solver budget): the twenty property
     checks share most of their cones, and nothing is reused across different trees."""
@@ -120,6 +120,13 @@ def run_tasks(items, timeout_ms, jobs=12, task_wall_s=900):
                 pass
         todo.append((k, key))
     fresh = _run_tasks_uncached(todo, timeout_ms, jobs, task_wall_s) if todo else []
+    # obligations left undecided (or tasks that died) under full load get one quieter second attempt with a
+    # larger budget before they are reported
+    shaky = [(r["task_kind"], r["task"]) for r in fresh
+             if any(o["status"] not in ("sat", "unsat") for o in r["obligations"]) or str(r.get("out_of_reach") or "").startswith("engine-error: worker")]
+    if shaky:
+        again = {r["task"]: r for r in _run_tasks_uncached(shaky, timeout_ms * 3, max(2, jobs // 4), task_wall_s * 2)}
+        fresh = [again.get(r["task"], r) if (r["task_kind"], r["task"]) in shaky else r for r in fresh]
     for r in fresh:
         decided = not str(r.get("out_of_reach") or "").startswith("engine-error: worker")
         if decided:
